@@ -30,14 +30,14 @@ CHECKS = {
    text="Exploration with bounded liveness: up to f (by stake) crashes at arbitrary instants, heavy-tail delays and stalls before a stabilisation instant, timely delivery afterwards; every live node's highest committed round must grow in every window of (2f+4) max-timeouts + sync_retry_delay + 7 s.",
    note="The bound is calibrated (worst observed gap stays below a third of the window on the unchanged tree). One structural known finding (unequal stakes, see known_findings.json) is reported as KNOWN-FINDING."),
  "C07": dict(ref="5/C07", tech="deterministic simulation + seeded isolation/heal search; catch-up monitor over commit sequences and sync traffic",
-   text="Exploration with bounded liveness: a seeded node is cut off for a seeded interval while the others commit (with or without view changes), then healed (optionally with a mute first sync target and clock jumps); by the deadline its committed round must reach what the others had one liveness window earlier, its sequence obeys the C02/C01 monitors, and sync replies from helpers equal the originally proposed block.",
-   note="Deadline includes the reliable sender's reconnection back-off (up to twice the isolation, capped at 62 s)."),
+   text="Exploration with bounded liveness: a seeded node is cut off for a seeded interval while the others commit (with or without view changes), then healed (optionally with a mute first sync target and clock jumps); by the deadline its committed round must reach what the others had one liveness window earlier, its sequence obeys the C02/C01 monitors, sync replies from helpers equal the originally proposed block, and every request left unanswered by a deaf peer is repeated for the same block to other peers within sync_retry_delay + 7 s.",
+   note="Deadline includes the reliable sender's reconnection back-off (up to twice the isolation, capped at 62 s) and the deafness of a finitely deaf peer. One known finding (a peer deaf for ever) is reported as KNOWN-FINDING."),
  "C08": dict(ref="5/C08", tech="deterministic simulation + seeded fault/schedule search; store-write tap versus vote and commit instants",
    text="Exploration: at the instant a vote for a foreign block is written to the wire and at every commit, each payload digest must already be a key in that node's store (write observed through the store tap with an earlier sequence number).",
    note="Commit instants are observed when the harness drains the commit channel (slightly later than the send)."),
- "C09": dict(ref="5/C09", tech="deterministic simulation + seeded fault/schedule search; proposer monitor against an independent sorted-key round robin",
-   text="Exploration: every voted block must be authored and signed by the independently computed leader of its round; over any n consecutive voted rounds the leaders are n distinct authorities; no honest authority emits two different blocks for one round; committee files are written in a different insertion order per node.",
-   note="Equivocation is judged on blocks seen on the wire."),
+ "C09": dict(ref="5/C09", tech="deterministic simulation (cluster with Byzantine usurpers and puppet world) + seeded fault/schedule search; observational proposer-agreement, rotation and equivocation monitor",
+   text="Exploration: whoever honest nodes treat as the proposer of a round (by proposing in it or voting for a block of it) must be one authority; voted blocks are signed by their author; over any n consecutive voted rounds the proposers are n distinct authorities; no honest authority emits two different blocks for one round; committee files are written in a different insertion order per node; the adversary sends correctly signed proposals for rounds it does not lead.",
+   note="Equivocation is judged on blocks seen on the wire. Agreement with the sorted-key round robin is a probe only; the harness drives W2 and the adversary with that schedule."),
  "C10": dict(ref="5/C10", tech="deterministic simulation + seeded fault/schedule search; evidence-based round monitor and timeout high-QC monitor",
    text="Exploration: an honest node emitting a vote/timeout/proposal for round r>1 must have been shown a valid QC/TC of round >= r-1 or quorum votes/timeouts to assemble one; per link the acting round never decreases; first emissions of its own proposals have increasing rounds; each timeout's QC is at least the QC of blocks voted earlier and of earlier timeouts on that link and below the timeout's round.",
    note="Cross-connection orders are not compared."),
